@@ -46,6 +46,15 @@ func ParseChunkSize(r network.Reader) (int, error) {
 		if c == ' ' {
 			continue
 		}
+		// Skip chunk extensions: a recipient must ignore the ones it does not
+		// recognize (RFC 7230, Section 4.1.1).
+		if c == ';' {
+			for c != '\r' {
+				if c, err = r.ReadByte(); err != nil {
+					return -1, errors.NewPublic(fmt.Sprintf("cannot read '\r' char at the end of chunk size: %s", err))
+				}
+			}
+		}
 		if c != '\r' {
 			return -1, errors.NewPublic(
 				fmt.Sprintf("unexpected char %q at the end of chunk size. Expected %q", c, '\r'),
